@@ -652,7 +652,7 @@ std::vector<uint8_t> encode(const model::MLib& m, const Choices& c, bool* expect
                 if (grid(p.ev) != 0 || c.explicit_defaults) e.rec_i32(ENDEXTN, {grid(p.ev)});
             }
             std::vector<int32_t> co;
-            for (auto& q : p.spine) {
+            for (auto& q : model::centre_line(p)) {
                 co.push_back(grid(q.x));
                 co.push_back(grid(q.y));
             }
